@@ -185,6 +185,8 @@ def run(chk, tier):
             bad += [(f, k) for (f, k, op) in r.failed_ops]
             cand = [x for x in sorted(case.faults, key=lambda x: (dt.KINDS.index(x[1]), x[0])) if x in bad] or \
                    sorted(case.faults, key=lambda x: (dt.KINDS.index(x[1]), x[0]))
+            if not cand:        # a fault-free run: the first requested output that is not where it should be
+                cand = [(o["file"], o["kind"]) for o in r.obs if o["st"] != "complete"]
             fk = cand[0] if cand else (0, "none")
         src = case.faults.get(fk, "none")
         if src == "nodir" and fk[1] == "c" and "main" in case.kinds:
@@ -222,6 +224,56 @@ def run(chk, tier):
         chk.assumptions.append(msg)
     if reached < len(cases) // 2:
         raise vlib.MachineryError("the injected faults were reached in only %d of %d runs" % (reached, len(cases)))
+
+
+def selftest():
+    """Corrupt single fields of a recorded, accepted trace and show that TLC rejects each variant.
+    Run:  cd /verif && python3 -c "import sys; sys.path[:0]=['lib','.']; import checks.c18 as m; m.selftest()" """
+    import copy
+    b = vlib.vbuild()
+    hooks = dt.hooks_present(b)
+    root, tdir = vlib.scratch("c18s"), vlib.scratch("c18st")
+    base = cf.execute(b, cf.Case(["fact"], ["ao", "fm", "main"], {}, "ref"), root, 0, None, hooks, tdir)
+
+    def variant(name, fn):
+        r = copy.deepcopy(base)
+        fn(r.events)
+        r.label["variant"] = name
+        return r
+
+    def field(evname, key, val, nth=0):
+        def f(evs):
+            [e for e in evs if e["ev"] == evname][nth][key] = val
+        return f
+
+    def drop(evname):
+        def f(evs):
+            evs.remove([e for e in evs if e["ev"] == evname][0])
+        return f
+
+    def obs_partial(evs):
+        evs[-1]["obs"][0]["st"] = "partial"
+    vs = [variant("unchanged", lambda evs: None),
+          variant("Observed: one output partial instead of complete", obs_partial),
+          variant("Observed: exit 0 -> 3", field("Observed", "exit", 3)),
+          variant("Observed: error lines 0 -> 1", field("Observed", "errl", 1)),
+          variant("Observed: signal 0 -> 11", field("Observed", "signal", 11))]
+    if hooks:
+        vs += [variant("OutClose rc 0 -> -1", field("OutClose", "rc", -1)),
+               variant("OutClose werr 0 -> 1", field("OutClose", "werr", 1, 1)),
+               variant("OutOpen ok true -> false", field("OutOpen", "ok", False)),
+               variant("Exit event dropped", drop("Exit")),
+               variant("Exit status 0 -> 1", field("Exit", "status", 1)),
+               variant("OutClose event dropped", drop("OutClose")),
+               variant("Msg error inserted after FileStart", lambda evs: evs.insert(2, {"ev": "Msg", "kind": "error", "nerr": 1}))]
+    verdicts, st = dt.validate(vs, chunk=len(vs), parallel=1)
+    ok = True
+    for r, v in zip(vs, verdicts):
+        print("%-55s %s" % (r.label["variant"], v))
+        ok = ok and (v.ok == (r.label["variant"] == "unchanged"))
+    vlib.cleanup_scratch()
+    print("selftest", "PASSED" if ok else "FAILED")
+    return ok
 
 
 SELFTEST_NOTES = """
